@@ -24,7 +24,7 @@ REQUIRED = ['mon.mc_programs', 'mon.mc_exceptions_in_body', 'mon.mc_hover_setpoi
             'mon.mc_consecutive_motions_with_same_vertical_velocity', 'mon.mc_statement_level_preemption_runs',
             'mon.mc_flights_ending_below_take_off_level', 'mon.mc_identical_velocity_commanded_again',
             'mon.mc_programs_over_the_real_commander_legacy_firmware', 'mon.mc_legacy_setpoints_with_yaw_rate',
-            'mon.hl_programs_over_the_real_hl_commander']
+            'mon.hl_programs_over_the_real_hl_commander', 'mon.mc_second_flights_with_the_same_object']
 DESC_TIMEOUT = 900
 PERIOD = 0.2
 
@@ -312,6 +312,8 @@ def run_mc(desc, ctx):
             if boom_at == len(prog):
                 raise Boom()
 
+        second_flight = it % 4 == 1
+
         def fn(s):
             mc = MotionCommander(cf, default_height=h0)
             try:
@@ -338,13 +340,34 @@ def run_mc(desc, ctx):
             ob['t_land_done'] = s.now
             s.sleep(5.0)
             ob['alive'] = ob['thread'].is_alive() if ob['thread'] is not None else None
+            if second_flight:
+                # the same MotionCommander object flies again (second `with`, or take_off()/land() again)
+                ob['f2_mark'] = len(cf.log)
+                ob['f2_t0'] = s.now
+                d2, v2 = 0.3 + (it % 5) * 0.17, 0.3 + (it % 3) * 0.2
+                try:
+                    if form == 'with':
+                        with mc:
+                            ob['f2_thread'] = mc._thread
+                            mc.forward(d2, v2)
+                    else:
+                        mc.take_off(h0, tk_v)
+                        ob['f2_thread'] = mc._thread
+                        mc.forward(d2, v2)
+                        mc.land()
+                except Exception as e:  # noqa
+                    ob['f2_error'] = repr(e)[:200]
+                ob['f2_t1'] = s.now
+                ob['f2_min_duration'] = h0 / (0.2 if form == 'with' else tk_v) + d2 / v2
+                s.sleep(3.0)
+                ob['f2_alive'] = ob['f2_thread'].is_alive() if ob.get('f2_thread') is not None else None
         # the last two runs pre-empt at statement level (sys.monitoring LINE events): the setpoint thread can be
         # suspended between any two statements while the commanding thread lands
         for pol in ('rtb', 'random', 'pct', 'line', 'line2'):
             cf.log.clear()
             if wire is not None:
                 del cf.undecodable[:]
-            ob.update({'segments': [], 'escaped': None, 'thread': None, 'prims': []})
+            ob.update({'segments': [], 'escaped': None, 'thread': None, 'prims': [], 'f2_mark': None, 'f2_error': None, 'f2_thread': None})
             ob.pop('boom', None)
             if pol.startswith('line'):
                 _, abort, sch = harness.sched_case(fn, seed=desc['seed'] * 31 + it + (7 if pol == 'line2' else 0), policy='random',
@@ -383,7 +406,7 @@ def run_mc(desc, ctx):
                 ctx.count('mon.mc_exceptions_in_body')
                 if not ob.get('boom'):
                     ctx.violate('mc:exception-raised-in-body-was-swallowed', info, replay=rp)
-            calls = [c for c in cf.log if c[1].startswith('cmd.')]
+            calls = [c for c in cf.log[:(ob.get('f2_mark') if second_flight and ob.get('f2_mark') is not None else len(cf.log))] if c[1].startswith('cmd.')]
             names = [c[1] for c in calls]
             # ---- ends on the ground command, nothing afterwards
             ctx.count('mon.quiet_after_landing')
@@ -477,6 +500,24 @@ def run_mc(desc, ctx):
                 if any(abs(d - w) > E7 * max(1.0, abs(w)) for d, w in zip(disp, want)):
                     ctx.violate('mc:primitive-%s-commanded-displacement-differs' % k,
                                 dict(info, primitive=(k, a, v), commanded=disp, requested=want), replay=rp)
+                    break
+            if second_flight:
+                ctx.count('mon.mc_second_flights_with_the_same_object')
+                c2 = [c for c in cf.log[ob.get('f2_mark', len(cf.log)):] if c[1].startswith('cmd.')]
+                h2 = [c for c in c2 if c[1] == 'cmd.send_hover_setpoint']
+                gaps = [b[0] - a[0] for a, b in zip(h2, h2[1:])]
+                prob = None
+                if ob.get('f2_error'):
+                    prob = ('mc:second-flight-with-the-same-object-raised', {'error': ob['f2_error']})
+                elif [c[1] for c in c2][-2:] != ['cmd.send_stop_setpoint', 'cmd.send_notify_setpoint_stop']:
+                    prob = ('mc:second-flight:does-not-end-with-stop-then-notify', {'last_calls': [c[1] for c in c2][-4:]})
+                elif len(h2) < ob['f2_min_duration'] / PERIOD - 1 or (gaps and max(gaps) > PERIOD + 1e-9):
+                    prob = ('mc:second-flight:hover-setpoints-not-streamed-every-period',
+                            {'hover_setpoints': len(h2), 'flight_lasts_at_least_s': ob['f2_min_duration'], 'largest_gap': max(gaps) if gaps else None})
+                elif any(c[0] > ob['f2_t1'] + 1e-9 for c in c2) or ob.get('f2_alive'):
+                    prob = ('mc:second-flight:setpoints-or-thread-after-landing', {'alive': ob.get('f2_alive')})
+                if prob:
+                    ctx.violate(prob[0], dict(info, **prob[1]), replay=rp)
                     break
             ctx.nontrivial((core.h64(core.jsonable(prog)), boom_at, form, core.h64([(round(c[0], 9), c[1]) for c in calls])))
         if it == 0:
